@@ -110,6 +110,8 @@ def run(ctx):
             shape = {"msg": "present", "data": DATA_SHAPES[(i + j) % len(DATA_SHAPES)]}
             if rep == "legacy_ctor" and (i % 3 == 0):
                 shape["msg"] = "absent"
+            elif (i + j) % 5 == 2:
+                shape["msg"] = "empty"       # the server's message is the empty string: a message all the same
             if not in_range and j != i % 4:
                 continue
             cases.append({"code": c, "rep": rep, **shape})
@@ -125,6 +127,8 @@ def run(ctx):
             err: Dict[str, Any] = {"code": c}
             if case["msg"] == "present":
                 err["message"] = MESSAGES[c % len(MESSAGES)].replace("{c}", str(c))
+            elif case["msg"] == "empty":
+                err["message"] = ""
             if case["data"] != "absent":
                 err["data"] = _expand_data(case["data"])
             # direct classifier call
@@ -202,6 +206,9 @@ def run(ctx):
                     text = str(val)
                     if case["msg"] == "present" and MESSAGES[c % len(MESSAGES)].replace("{c}", str(c)) not in text:
                         ctx.violation("message_not_carried", f"code {c}: text {text!r} lacks server message", case)
+                    if case["msg"] == "empty" and E.get_error_message(c) and E.get_error_message(c) in text:
+                        ctx.violation("message_not_carried", f"code {c}: the server's message was the empty string; the exception "
+                                      f"text {text!r} carries the library's own wording instead", case)
                     if case["msg"] == "absent" and E.get_error_message(c) not in text:
                         ctx.violation("message_not_carried", f"code {c}: text {text!r} lacks default message", case)
             ctx.record(case, shape=shape, cls=f"{case['rep']}:{'perm' if want_perm else 'retry'}")
